@@ -69,9 +69,27 @@ func raceSignatures(text, target string) (sigs []string, details []string, machi
 				st = st[:j]
 			}
 			top := ""
+			firstNonRuntime := true
 			for _, m := range frameRe.FindAllStringSubmatch(st, -1) {
 				fn := m[1]
-				if strings.Contains(fn, "verif.local/simrt") || strings.Contains(fn, "/zzverif/") || strings.HasPrefix(fn, "runtime.") {
+				if strings.HasPrefix(fn, "runtime.") {
+					continue
+				}
+				if firstNonRuntime {
+					firstNonRuntime = false
+					if strings.Contains(fn, "verif.local/simrt") || strings.Contains(fn, "/zzverif/") {
+						// the access itself happened in simulator or harness code
+						top = ""
+						break
+					}
+				}
+				if strings.Contains(fn, "verif.local/simrt") || strings.Contains(fn, "/zzverif/") {
+					break // reached the harness: keep what we have
+				}
+				if !strings.Contains(fn, "github.com/evanphx/json-patch") {
+					if top == "" {
+						top = "std:" + fn // access inside the standard library on behalf of the library
+					}
 					continue
 				}
 				fn = strings.TrimPrefix(fn, "github.com/evanphx/json-patch/v5/internal/")
@@ -90,7 +108,8 @@ func raceSignatures(text, target string) (sigs []string, details []string, machi
 				break
 			}
 		}
-		if len(tops) == 0 {
+		if len(tops) < 2 {
+			// at least one of the two accesses is in simulator/harness code
 			machinery = append(machinery, rep)
 			continue
 		}
@@ -122,12 +141,12 @@ func subprocessTest(p Params, sigWanted string) func(*Scenario) bool {
 		}
 		defer os.Remove(tmp)
 		cmd := exec.Command(p.SelfExe, "-mode", "replay", "-file", tmp)
-		cmd.Env = append(os.Environ(), "GORACE=log_path="+filepath.Join(p.OutDir, fmt.Sprintf("candrace.%d", p.Worker))+" halt_on_error=0")
+		cmd.Env = append(os.Environ(), "GORACE=log_path="+filepath.Join(p.OutDir, fmt.Sprintf("candrace.%d", p.Worker))+" halt_on_error=0 exitcode=0")
 		var out bytes.Buffer
 		cmd.Stdout = &out
 		err := cmd.Run()
 		_ = err
-		return strings.Contains(out.String(), "REPRODUCED property=")
+		return strings.Contains(out.String(), "\nREPRODUCED property=")
 	}
 }
 
@@ -200,6 +219,9 @@ func RunConcWorker(p Params) *Summary {
 			ws.handleViolations(seq, r0, ws.concTest(p))
 		}
 		for k := 0; k < K; k++ {
+			if k > 0 && time.Now().After(p.Deadline) {
+				break
+			}
 			s := base.Clone()
 			strat := ApplyStrategy(s, uint64(k), total)
 			r := Run(s)
